@@ -41,6 +41,7 @@ Not proved here (listed explicitly):
 -/
 import NetqasmVerif.Lemmas.AsmBuild
 import NetqasmVerif.Lemmas.AsmMacros
+import NetqasmVerif.Lemmas.AsmLabelExact
 import NetqasmVerif.Lemmas.AsmPure
 import NetqasmVerif.Lemmas.AsmExec
 import NetqasmVerif.Lemmas.AsmTextOperand
@@ -473,6 +474,26 @@ example : (IR.deref ⟨[0, 1, 0], fun c => if c = 0 then some (.inr ("add", [], 
     fun _ => [0, 0, 1], fun o => if o = 0 then .reg ⟨0, 0⟩ else .lit 1⟩) =
     [.instr "add" [] [.reg ⟨0, 0⟩, .reg ⟨0, 0⟩, .lit 1], .label "L", .instr "add" [] [.reg ⟨0, 0⟩, .reg ⟨0, 0⟩, .lit 1]] := by
   decide
+
+/-! ## label names -/
+
+/-- **`label_resolution_exact`.**  A label operand `l` is patched with the number of real commands in
+front of the FIRST definition whose name is exactly `l` (string equality), and is left unresolved when
+no definition has exactly that name: names differing in case, prefixes or suffixes of `l`, names that
+look like mnemonics or registers play no role. -/
+theorem label_resolution_exact (P : List PCmd) (l : String) :
+    (∀ k, (P[k]? = some (.label l) ∧ ∀ j, j < k → P[j]? ≠ some (.label l)) →
+      patchOp (labelTable P 0) (.lab l) = .lit (tpos2 P k : Nat)) ∧
+    (PCmd.label l ∉ P → patchOp (labelTable P 0) (.lab l) = .lab l) :=
+  patchOp_label_exact P l
+
+/-- `retry:` / `RETRY:` — a branch to the later one lands behind the later one -/
+theorem label_case_witness :
+    (assembleProto Gen.excTable Gen.numScratch
+      [.label "retry", .instr "set" [] [.reg ⟨0, 0⟩, .lit 1], .label "RETRY", .instr "jmp" [] [.lab "RETRY"],
+       .instr "jmp" [] [.lab "retry"]]).toOption =
+    some [.instr "set" [] [.reg ⟨0, 0⟩, .lit 1], .instr "jmp" [] [.lit 1], .instr "jmp" [] [.lit 0]] := by
+  decide +kernel
 
 /-! ## macros -/
 
